@@ -6,7 +6,7 @@ from vlib import hexs
 REQUIRED = ['auth_only_if_backend_accepts', 'no_partial_identity', 'backend_failure_never_authenticates',
             'malformed_never_authenticates', 'authenticated_client_only_via_accept', 'cancel_never_authenticates',
             'auth_refused_when', 'auth_refused_without_setup', 'auth_refused_before_ehlo', 'auth_mask_is_ehlo_state', 'rows_enabling_auth',
-            'plain_fields_spec', 'authname_may_contain_crlf', 'login_fields_may_contain_nul',
+            'plain_fields_spec', 'authname_clean',
             'b64_no_fault', 'b64_strict', 'b64_rejects_nul', 'b64_roundtrip', 'b64_roundtrip_strip',
             'b64_roundtrip_loses_trailing_nul']
 
